@@ -584,6 +584,7 @@ for _extra in ("c12_extra_fixes.json",):
 # second build round: repairs kept as diffs under notes/fixes_round2/ (the registry only needs their commit messages)
 fix("C12j", "fix: buffer every input of an eternal variable in one entry, whatever period key it is given under")
 fix("C07d", "fix: as-of-date indexing of a several-row vector reads each row, not the first one (VectorialAsofDateParameterNodeAtInstant.__getitem__)")
+fix("C13-disk", "fix: give the clone of a disk-backed simulation its own temporary directory and its own copies of the stored files (Simulation.clone, Holder.clone)")
 fix("C12-errclass-axes", "fix: refuse an axis over an unknown variable or an unreadable period with a situation error")
 
 
